@@ -486,8 +486,18 @@ fn wellformed_verdicts(cx: &Ctx, i: usize, o: &mut Outcome) {
     let req_txt = escape_trunc(&cx.reqs_bytes(i), 100);
     for d in &p.deviations {
         let class = d.split(':').next().unwrap_or(d).to_string();
-        if class == "head.incomplete" || class == "empty" {
+        if class == "empty" {
             continue; // completeness is C04's
+        }
+        if class == "head.incomplete" {
+            // bytes were sent, the transport took them all, and they stop before the blank line: that
+            // is not a response of the form the statement gives (under a transport fault or in a run
+            // that was cut short it is C04's business)
+            let sc_conn = &cx.sc.conns[i];
+            let clean = i < cx.sc.conns.len() && sc_conn.faults.only_cuts() && sc_conn.client == ClientMode::Normal && matches!(cx.r.end, End::Completed) && !c.fired.iter().any(|x| x.starts_with("disk_"));
+            if !(clean && !c.outbound.is_empty() && c.server_closed) {
+                continue;
+            }
         }
         if class == "header.nul_inside" {
             continue; // the statement forbids line breaks inside a header line, not NUL
